@@ -257,11 +257,21 @@ def gen_wait_spec(rng: random.Random) -> dict:
              "script": [["ret", rng.choice(["stop", "none"])]]}
     start = {"name": "s00", "accepts": [0], "nw": 1, "retry": None,
              "script": [["send", 5, rng.choice([None, "s02"]), rng.choice([None, 1])] for _ in range(rng.randint(1, 3 if also else 2))] + [["ret", "none"]]}
+    own = rng.random() < 0.25
+    if own:
+        # request/reply: every invocation waits (auto-generated waiter id) for the reply that carries ITS OWN k;
+        # the waits of one step differ only in the requirement value
+        for a in waiter["script"]:
+            if a[0] == "wait":
+                a[2], a[4] = "own", None
+        waiter["nw"] = rng.randint(1, 3)
+        ks = rng.sample([1, 2, 3], rng.randint(2, 3))
+        start["script"] = [["send", 5, rng.choice([None, "s02"]), k] for k in ks] + [["ret", "none"]]
     steps = [start, waiter, other]
     rng.shuffle(steps)
     ext = []
     for _ in range(rng.randint(0, 4)):
-        ext.append({"op": "send", "ty": rng.choice([wty, wty, 3, 11, 11, 3, 6]), "k": rng.choice([None, 1, 2]),
+        ext.append({"op": "send", "ty": rng.choice([wty, wty, wty, 3, 11, 6] if own else [wty, wty, 3, 11, 11, 3, 6]), "k": rng.choice([1, 2, 3] if own else [None, 1, 2]),
                     "step": rng.choice([None, None, None, "s02", "s04"]), "after_quiet": rng.randint(0, 4)})
     if rng.random() < 0.2:
         ext.append({"op": "snapshot", "after_quiet": rng.randint(0, 4)})
